@@ -160,6 +160,34 @@ def r2_shapes(ctx):
                       detail=norm(bu[0].value), expected="left.baseunits")
         else:
             ctx.unrecognised(Q, f"Quantity.{name}", "result", "Quantity(magnitude, baseunits) with one baseunits assignment not found")
+    # every add/sub a registered unit type resolves to (own or inherited) refuses operands of different dimension
+    from ..flowexpr import consistent, paths as _paths
+    from ..unittables import module_const as _mc
+    seen_defs = set()
+    for t in _mc(ctx.repo, "UNIT_TYPES"):
+        for name in ("add", "sub"):
+            r = ctx.repo.method(t.module, t.node, name)
+            if r is None:
+                ctx.violated(t.module.relpath, t.name, f"{name}: defined for the unit type", detail="no definition along the MRO")
+                continue
+            m_, c_, f_ = r
+            key = (m_.relpath, c_.name, name)
+            if key in seen_defs:
+                continue
+            seen_defs.add(key)
+            ctx.functions_analysed.add(f"{m_.relpath}::{c_.name}.{name}")
+            D1, D2 = "self.baseunits1.dimensions", "self.baseunits2.dimensions"
+            cs, unk = consistent(_paths(f_), lambda e: {f"{D1} != {D2}": True, f"{D2} != {D1}": True, f"{D1} == {D2}": False, f"{D2} == {D1}": False,
+                                                         "self.baseunits1.units != self.baseunits2.units": False, "self.baseunits1.units == self.baseunits2.units": True}.get(norm(e)))
+            tested = any(D1 in norm(e.resolved) and D2 in norm(e.resolved) for q in _paths(f_) for e in q.tests())
+            if unk:
+                ctx.unrecognised(m_.relpath, f"{c_.name}.{name}", "operands of different dimension are refused", f"test not decided: {sorted(set(unk))[0][:80]}")
+            elif not tested:
+                ctx.violated(m_.relpath, f"{c_.name}.{name}", "operands of different dimension are refused", detail="no comparison of the two dimension vectors on any path",
+                             expected="if self.baseunits1.dimensions != self.baseunits2.dimensions: raise  (the type also claims reciprocal dimensions for conversion)")
+            else:
+                ctx.check(bool(cs) and all(q.status == "raise" for q in cs), m_.relpath, f"{c_.name}.{name}", "operands of different dimension are refused",
+                          detail=sorted({str(q.status) for q in cs}))
     for name, op in (("add", ast.Add), ("sub", ast.Sub)):
         fn = ctx.fn(UT, f"UnitType.{name}")
         u1, u2 = [a.arg for a in fn.args.args[1:3]]
